@@ -1228,7 +1228,7 @@ def translate(repo):
             seen.add(key)
             keep.append(a)
         pv = [{"name": n, "class": classify_private(r.events.get(n, [])),
-               "events": [e[0] + ("?" if e[1] else "") for e in r.events.get(n, [])][:12]} for n in r.priv]
+               "events": [[e[0], bool(e[1]), bool(e[2])] for e in r.events.get(n, [])]} for n in r.priv]
         wf = sorted({json.dumps([a["var"], a["crit"], a.get("form", ["whole"])]) for a in acc if a["write"]})
         af = sorted({json.dumps([a["var"], a["crit"], a.get("form", ["whole"])]) for a in acc
                      if a["var"] in interesting})
@@ -1294,7 +1294,12 @@ def to_coq(tr):
             L.append("  [\n" + "\n".join(body) + "\n  ]")
         else:
             L.append("  []")
-        L.append("  [" + "; ".join("mkPvar \"%s\" %s" % (p["name"], p["class"]) for p in r["private"]) + "].")
+        evname = {"W": "EW", "RMW": "ERMW", "R": "ER", "M": "EM", "CLR": "ECLR"}
+        pvs = []
+        for p in r["private"]:
+            evs = "; ".join("mkEv %s %s %s" % (evname[e[0]], coq_bool(e[1]), coq_bool(e[2])) for e in p["events"])
+            pvs.append("mkPvar \"%s\" %s [%s]" % (p["name"], p["class"], evs))
+        L.append("  [" + ";\n   ".join(pvs) + "].")
         L.append("")
     L.append("Definition regions : list region :=\n  [" + "; ".join(names) + "].")
     L.append("")
